@@ -424,6 +424,18 @@ func elemsEq(a, b []value) value {
 			}
 			continue
 		}
+		ba, isBa := a[i].(abiBlob)
+		bb, isBb := b[i].(abiBlob)
+		if isBa || isBb {
+			if !(isBa && isBb) {
+				return false
+			}
+			acc = mkAnd(acc, termOf(deepEq(ba.args, bb.args)))
+			if acc.isFalse() {
+				return false
+			}
+			continue
+		}
 		acc = mkAnd(acc, mkEq(termOf(a[i]), termOf(b[i])))
 		if acc.isFalse() {
 			return false
@@ -840,4 +852,90 @@ func fnPkgPath(fn *ssa.Function) string {
 		return fn.Object().Pkg().Path()
 	}
 	return ""
+}
+
+// deepEq compares two interpreter values structurally (through pointers, slices and interfaces),
+// yielding bool or a symbolic condition. Used for opaque ABI argument lists.
+func deepEq(x, y value) value {
+	x, y = force(x), force(y)
+	switch a := x.(type) {
+	case []value:
+		b, ok := y.([]value)
+		if !ok || len(a) != len(b) {
+			return false
+		}
+		var r value = true
+		for i := range a {
+			r = vAnd(r, deepEq(a[i], b[i]))
+			if c, ok := r.(bool); ok && !c {
+				return false
+			}
+		}
+		return r
+	case structure:
+		b, ok := y.(structure)
+		if !ok || len(a) != len(b) {
+			return false
+		}
+		return deepEq([]value(a), []value(b))
+	case array:
+		b, ok := y.(array)
+		if !ok || len(a) != len(b) {
+			return false
+		}
+		return deepEq([]value(a), []value(b))
+	case iface:
+		b, ok := y.(iface)
+		if !ok || !sameType(a.t, b.t) {
+			return false
+		}
+		if a.t == nil {
+			return true
+		}
+		return deepEq(a.v, b.v)
+	case *value:
+		b, ok := y.(*value)
+		if !ok {
+			return false
+		}
+		if a == nil || b == nil {
+			return a == b
+		}
+		return deepEq(*a, *b)
+	case bigv:
+		b, ok := y.(bigv)
+		if !ok {
+			if ys, ok := y.([]value); ok && len(ys) == 0 {
+				return mkVal(mkEq(a.t, mkInt(0)), types.Bool)
+			}
+			return false
+		}
+		return mkVal(mkEq(a.t, b.t), types.Bool)
+	case string, sstr:
+		if !isStr(y) {
+			return false
+		}
+		return strEq(a, y)
+	case symv:
+		return mkVal(mkEq(a.t, termOf(y)), types.Bool)
+	case abiBlob:
+		b, ok := y.(abiBlob)
+		if !ok {
+			return false
+		}
+		return deepEq(a.args, b.args)
+	case blob:
+		b, ok := y.(blob)
+		if !ok {
+			return false
+		}
+		return deepEq(a.v, b.v)
+	}
+	if _, ok := y.(symv); ok {
+		return mkVal(mkEq(termOf(x), termOf(y)), types.Bool)
+	}
+	if _, ok := valueKind(x); ok {
+		return x == y
+	}
+	return x == y
 }
